@@ -525,7 +525,20 @@ class ModelTie:
             if name == 'reduce':
                 return 'reduce ' + ' '.join(self.mcol(fc(l)) for l in a['cols'])
             if name == 'snap_columns_to_layers':
-                return 'snap_columns_to_layers %s %s' % (rat(G.unhx(a['min_thickness'])), ' '.join(self.mcol(fc(l)) for l in a.get('cols', [])))
+                mt = G.unhx(a['min_thickness'])
+                sel = [fc(l) for l in a.get('cols', [])] or list(g.columnlist)
+                exact_layers = all(float(l.bottom) * 1048576 == int(float(l.bottom) * 1048576) for l in g.layerlist)
+                for c in sel:
+                    try:
+                        d = (c.surface - g.column_surface_layer(c).bottom) - mt
+                    except Exception:
+                        continue
+                    if abs(d) <= 1e-9 * max(1.0, abs(mt)) and not (d == 0 and exact_layers):
+                        # `surface - bottom < min_thickness` decided on a rounding error
+                        self.unstable += 1
+                        self.dead = True
+                        return None
+                return 'snap_columns_to_layers %s %s' % (rat(mt), ' '.join(self.mcol(fc(l)) for l in a.get('cols', [])))
             if name == 'snap_columns_to_nearest_layers':
                 return 'snap_columns_to_nearest_layers ' + ' '.join(self.mcol(fc(l)) for l in a.get('cols', []))
             if name == 'translate':
